@@ -90,7 +90,12 @@ def replace_gate(gate, macros):
             raise JaqalError(
                 f"Cannot expand {gate.name}: wrong argument count: {len(gate.parameters)} != {len(macro.parameters)}"
             )
-        visitor = GateReplacer(gate.parameters, macros)
+        # Bind by position: the statement may carry parameter names other
+        # than the macro's own (e.g. an anonymous definition).
+        arguments = dict(
+            zip((param.name for param in macro.parameters), gate.parameters.values())
+        )
+        visitor = GateReplacer(arguments, macros)
         return visitor.visit(macro)
     else:
         return gate
